@@ -4,6 +4,7 @@ import (
 	"fmt"
 	"go/token"
 	"go/types"
+	"sort"
 	"strings"
 
 	"golang.org/x/tools/go/ssa"
@@ -474,8 +475,23 @@ func checkC15(c *Ctx) {
 	c.Rule("C15.shift", "memmove direction: an in-place element shift s[i+k] = s[i] walks against the direction of travel (or uses the overlap-safe builtin copy); Bytes.store opens the slot it fills by such a shift of everything from the insertion index")
 	ownRule(c, "C15.own", pkgScope(pkgMemory))
 	checkShifts(c, "C15.shift", pkgMemory)
-	if st := anchor(c, "(*"+pkgMemory+".Bytes).store"); st != nil {
-		checkInsertion(c, "C15.shift", st, "blocks")
+	if st := anchor(c, "(*"+pkgMemory+".Bytes).Store"); st != nil {
+		// wherever Store (or a helper it is split into) puts a new block into
+		// the block list
+		fns := map[*ssa.Function]bool{st: true}
+		for _, site := range DeepCalls(st, InModulePkg(st)) {
+			fns[site.Fn] = true
+		}
+		var order []*ssa.Function
+		for fn := range fns {
+			order = append(order, fn)
+		}
+		sort.Slice(order, func(i, j int) bool { return order[i].String() < order[j].String() })
+		nIns := 0
+		for _, fn := range order {
+			nIns += checkInsertion(c, "C15.shift", fn, "blocks")
+		}
+		c.RequireCount("C15.shift insertion of a new block reached from Bytes.Store", nIns, 1)
 	}
 	checkSetTerm(c, "C15.set", "(*"+pkgMemory+".Bytes).Missing", []string{"whole", "blocks"},
 		func(a map[string]bool) bool { return a["whole"] && !a["blocks"] }, "[addr,addr+w) \\ blocks")
@@ -637,7 +653,7 @@ func dirName(d int) string {
 // checkInsertion: fn stores a fresh element into field[idx] of a slice that it
 // has just grown by one; everything from idx must have been moved one slot up
 // first: by copy(s[idx+1:], s[idx:]) or by a safe shift loop with K=+1.
-func checkInsertion(c *Ctx, rule string, fn *ssa.Function, field string) {
+func checkInsertion(c *Ctx, rule string, fn *ssa.Function, field string) int {
 	isField := func(v ssa.Value) bool {
 		n, _, ok := FieldNameOfLoad(v)
 		return ok && n == field
@@ -693,7 +709,7 @@ func checkInsertion(c *Ctx, rule string, fn *ssa.Function, field string) {
 			c.Oblige(rule, ShortName(fn)+"/insert", c.Prog.Pos(st.Pos()), opened, why)
 		}
 	}
-	c.RequireCount(rule+" insertion store in "+ShortName(fn), n, 1)
+	return n
 }
 
 // --------------------------------------------------------------------- C16
@@ -736,6 +752,30 @@ func checkC16(c *Ctx) {
 				return false
 			})
 			if !fromBase {
+				// the layer handed to a helper of the package as a parameter
+				if p, isParam := Unwrap(cs.Common().Value).(*ssa.Parameter); isParam && PkgPathOf(fn) == ModulePath+"/"+pkgMemory {
+					idx := -1
+					for i, q := range fn.Params {
+						if q == p {
+							idx = i
+						}
+					}
+					for _, caller := range c.Prog.FuncsIn(ModulePath + "/" + pkgMemory) {
+						for _, cs2 := range CallsTo(caller, fn) {
+							if idx >= 0 && idx < len(cs2.Common().Args) && DependsOn(cs2.Common().Args[idx], func(v ssa.Value) bool {
+								if fa, ok := v.(*ssa.FieldAddr); ok && SameField(FieldOf(fa), baseF) {
+									return true
+								}
+								f, ok := v.(*ssa.Field)
+								return ok && SameField(FieldOf(f), baseF)
+							}) {
+								fromBase = true
+							}
+						}
+					}
+				}
+			}
+			if !fromBase {
 				continue
 			}
 			nInv++
@@ -748,7 +788,7 @@ func checkC16(c *Ctx) {
 			}
 		}
 	}
-	c.RequireCount("C16.ro invocations on the base layer", nInv, 4)
+	c.RequireCount("C16.ro invocations on the base layer", nInv, 3)
 	if st := anchor(c, "(*"+pkgMemory+".Overlay).Store"); st != nil {
 		n, ok := 0, false
 		for _, cs := range Calls(st) {
@@ -770,78 +810,138 @@ func checkC16(c *Ctx) {
 	key := ShortName(ld)
 	atom := layerAtom(ld)
 	layerLoad := map[string]int{}
-	for _, l := range RangeLoops(ld) {
-		intervals, ok := Unwrap(l.Over).(*ssa.Call)
+	enterLd := InModulePkg(ld)
+	for _, site := range DeepInstrs(ld, enterLd, func(in ssa.Instruction) bool {
+		call, ok := in.(*ssa.Call)
+		return ok && call.Call.IsInvoke() && call.Call.Method.Name() == "Load"
+	}) {
+		call := site.Instr.(*ssa.Call)
+		layer, base, isF := FieldNameOfLoad(site.UpRoot(call.Call.Value))
+		if !isF || base != ssa.Value(ld.Params[0]) {
+			continue
+		}
+		// the whole-range delegations are the fast paths (below)
+		if Unwrap(site.UpRoot(call.Call.Args[0])) == ssa.Value(ld.Params[1]) && Unwrap(site.UpRoot(call.Call.Args[1])) == ssa.Value(ld.Params[2]) {
+			continue
+		}
+		// a range read: inside a loop over Intervals() of a set
+		var loop *RangeLoop
+		for _, l := range RangeLoops(site.Fn) {
+			if LoopBlocks(l.Header)[call.Block()] {
+				loop = l
+			}
+		}
+		k := key + "/ranges-read-from-" + layer
+		if loop == nil {
+			c.Fail("C16.set", k, c.Prog.Pos(call.Pos()), "the layer is read for a range that is not an element of a list of intervals")
+			continue
+		}
+		intervals, ok := Unwrap(site.UpRoot(loop.Over)).(*ssa.Call)
 		if !ok || intervals.Call.StaticCallee() == nil || Origin(intervals.Call.StaticCallee()).Name() != "Intervals" {
+			c.Fail("C16.set", k, c.Prog.Pos(call.Pos()), "the ranges read are not the Intervals() of a set")
 			continue
 		}
 		setV := intervals.Call.Args[0]
-		// which layer is read in the loop?
-		for b := range LoopBlocks(l.Header) {
-			for _, in := range b.Instrs {
-				call, isCall := in.(*ssa.Call)
-				if !isCall || !call.Call.IsInvoke() || call.Call.Method.Name() != "Load" {
-					continue
-				}
-				layer, base, isF := FieldNameOfLoad(call.Call.Value)
-				if !isF || base != ssa.Value(ld.Params[0]) {
-					continue
-				}
-				layerLoad[layer]++
-				k := key + "/ranges-read-from-" + layer
-				t, err := SetTermOf(setV, atom)
-				if err != nil {
-					c.Fail("C16.set", k, c.Prog.Pos(call.Pos()), "not a set-algebra term: "+err.Error())
-					continue
-				}
-				var spec func(map[string]bool) bool
-				specText := ""
-				if layer == "overlay" {
-					spec = func(a map[string]bool) bool { return a["whole"] && !a["overlay.Missing"] }
-					specText = "[addr,addr+w) \\ overlay.Missing"
-				} else {
-					// overlay.Missing is a subset of the whole range by its contract
-					spec = func(a map[string]bool) bool { return a["overlay.Missing"] }
-					specText = "overlay.Missing"
-				}
-				if ok, cex := t.Equivalent([]string{"whole", "overlay.Missing"}, func(a map[string]bool) bool {
-					if a["overlay.Missing"] && !a["whole"] {
-						return t.Eval(a) // outside the contract: don't care
+		layerLoad[layer]++
+		t, err := SetTermOf(setV, atom)
+		if err != nil {
+			c.Fail("C16.set", k, c.Prog.Pos(call.Pos()), "not a set-algebra term: "+err.Error())
+			continue
+		}
+		var spec func(map[string]bool) bool
+		specText := ""
+		if layer == "overlay" {
+			spec = func(a map[string]bool) bool { return a["whole"] && !a["overlay.Missing"] }
+			specText = "[addr,addr+w) \\ overlay.Missing"
+		} else {
+			// overlay.Missing is a subset of the whole range by its contract
+			spec = func(a map[string]bool) bool { return a["overlay.Missing"] }
+			specText = "overlay.Missing"
+		}
+		if ok, cex := t.Equivalent([]string{"whole", "overlay.Missing"}, func(a map[string]bool) bool {
+			if a["overlay.Missing"] && !a["whole"] {
+				return t.Eval(a) // outside the contract: don't care
+			}
+			return spec(a)
+		}); ok {
+			c.Pass("C16.set", k, c.Prog.Pos(call.Pos()), t.Text)
+		} else {
+			c.Fail("C16.set", k, c.Prog.Pos(call.Pos()), fmt.Sprintf("the %s layer is read for %s, specified %s; they differ for an address with %v", layer, t.Text, specText, cex))
+		}
+		// (Begin(), Len()) of the loop element
+		isElem := func(v ssa.Value, _ *Bind) bool {
+			idx, ok := elemLoadIndex(v, loop.Over)
+			return ok && idx == loop.Key
+		}
+		argOK := matches(call.Call.Args[0], Method("Begin", isElem)) && matches(call.Call.Args[1], Conv(Method("Len", isElem)))
+		c.Oblige("C16.load", key+"/"+layer+"-read-args", c.Prog.Pos(call.Pos()), argOK, "the layer is not read with (Begin(), Len()) of the interval being processed")
+	}
+	if layerLoad["base"] < 1 || layerLoad["overlay"] < 1 {
+		c.Undecide("C16.load: expected a loop reading the base and one reading the overlay (found %v)", layerLoad)
+	}
+	// a failed read, walked concretely for one interval per layer: a byte
+	// available in neither layer makes the whole read fail with (nil, false);
+	// a failing overlay read (the overlay said it has the bytes) is a bug
+	for _, sc := range []struct {
+		name           string
+		baseOK, overOK bool
+	}{{"both-layers-answer", true, true}, {"base-read-failure", false, true}, {"overlay-read-failure", true, false}} {
+		sc := sc
+		var vl *Valuation
+		vl = &Valuation{
+			Enter: SamePackage(ld),
+			Int: func(v ssa.Value) (int64, bool) {
+				if call, ok := v.(*ssa.Call); ok {
+					if bi, isBi := call.Call.Value.(*ssa.Builtin); isBi && bi.Name() == "len" {
+						return 1, true
 					}
-					return spec(a)
-				}); ok {
-					c.Pass("C16.set", k, c.Prog.Pos(call.Pos()), t.Text)
-				} else {
-					c.Fail("C16.set", k, c.Prog.Pos(call.Pos()), fmt.Sprintf("the %s layer is read for %s, specified %s; they differ for an address with %v", layer, t.Text, specText, cex))
+					if f := call.Call.StaticCallee(); f != nil && Origin(f).Name() == "Len" && PkgPathOf(f) == IntervalPkg {
+						return 1, true
+					}
 				}
-				// (Begin(), Len()) of the loop element
-				isElem := func(v ssa.Value, _ *Bind) bool {
-					idx, ok := elemLoadIndex(v, l.Over)
-					return ok && idx == l.Key
-				}
-				argOK := matches(call.Call.Args[0], Method("Begin", isElem)) && matches(call.Call.Args[1], Conv(Method("Len", isElem)))
-				c.Oblige("C16.load", key+"/"+layer+"-read-args", c.Prog.Pos(call.Pos()), argOK, "the layer is not read with (Begin(), Len()) of the interval being processed")
-				if layer == "base" {
-					// failure returns (nil,false)
-					okV := extractOf(call, 1)
-					failOK := false
-					if okV != nil && okV.Referrers() != nil {
-						for _, r := range *okV.Referrers() {
-							if iff, isIf := r.(*ssa.If); isIf {
-								fb := iff.Block().Succs[1]
-								if ret, isRet := fb.Instrs[len(fb.Instrs)-1].(*ssa.Return); isRet && IsNilConst(ret.Results[0]) && matches(ret.Results[1], BoolPat(false)) {
-									failOK = true
-								}
-							}
+				return 0, false
+			},
+			Bool: func(v ssa.Value) (bool, bool) {
+				switch x := v.(type) {
+				case *ssa.Call:
+					if f := x.Call.StaticCallee(); f != nil && Origin(f).Name() == "Equal" && PkgPathOf(f) == IntervalPkg {
+						return false, true // part of the range is in the overlay
+					}
+				case *ssa.Extract:
+					if call, ok := x.Tuple.(*ssa.Call); ok && x.Index == 1 && call.Call.IsInvoke() && call.Call.Method.Name() == "Load" {
+						layer, _, _ := FieldNameOfLoad(vl.Root(call.Call.Value))
+						switch layer {
+						case "base":
+							return sc.baseOK, true
+						case "overlay":
+							return sc.overOK, true
 						}
 					}
-					c.Oblige("C16.load", key+"/base-read-failure", c.Prog.Pos(call.Pos()), failOK, "a byte available in neither layer does not make the read fail")
 				}
+				return false, false
+			},
+		}
+		res := vl.Walk(ld.Blocks[0], nil)
+		why := ""
+		_, panics := res.End.(*ssa.Panic)
+		switch {
+		case !res.OK:
+			why = "the read cannot be followed: " + res.Why
+		case sc.baseOK && sc.overOK:
+			if ok, known := res.RetBool[1]; panics || !known || !ok {
+				why = "a read whose ranges are all answered does not succeed"
+			}
+		case !sc.baseOK:
+			ok, known := res.RetBool[1]
+			if isNil, kn := res.RetNil[0]; panics || !known || ok || !kn || !isNil {
+				why = "a byte available in neither layer does not make the read fail with (nil, false)"
+			}
+		case !sc.overOK:
+			if !panics {
+				why = "an overlay read that fails although the overlay reported the bytes present is not treated as a bug"
 			}
 		}
-	}
-	if layerLoad["base"] != 1 || layerLoad["overlay"] != 1 {
-		c.Undecide("C16.load: expected one loop reading the base and one reading the overlay (found %v)", layerLoad)
+		c.Oblige("C16.load", key+"/"+sc.name, c.Prog.FuncPos(ld), why == "", why)
 	}
 	// fast paths
 	for _, b := range ld.Blocks {
@@ -878,7 +978,8 @@ func checkC16(c *Ctx) {
 	}
 	// sort + shift + or
 	sortOK := false
-	for _, cs := range Calls(ld) {
+	for _, st := range DeepCalls(ld, enterLd) {
+		cs := st.Call()
 		if f := Callee(cs.Common()); f != nil && f.String() == "sort.Slice" {
 			if mc, ok := Unwrap(cs.Common().Args[1]).(*ssa.MakeClosure); ok {
 				if cmp, ok := mc.Fn.(*ssa.Function); ok {
@@ -897,27 +998,35 @@ func checkC16(c *Ctx) {
 	off := anchor(c, pkgMemory+".offsetExpr")
 	nOff := 0
 	if off != nil {
-		for _, cs := range CallsTo(ld, off) {
+		for _, st := range DeepCalls(ld, enterLd) {
+			cs := st.Call()
+			if !SameFunc(Callee(cs.Common()), off) {
+				continue
+			}
 			nOff++
 			a := cs.Common().Args
-			// bytes = Width(r.intv.Begin() - addr)
-			shiftOK := matches(a[1], Conv(Bin(token.SUB, Method("Begin", Any()), ParamN(1)))) && a[2] == ssa.Value(ld.Params[2])
+			// bytes = Width(r.intv.Begin() - addr), addr and w being Load's own
+			shiftOK := false
+			if bd, ok := Match(a[1], Conv(Bin(token.SUB, Method("Begin", Any()), Capture("addr", Any())))); ok {
+				shiftOK = Unwrap(st.UpRoot(bd.M["addr"])) == ssa.Value(ld.Params[1]) && Unwrap(st.UpRoot(a[2])) == ssa.Value(ld.Params[2])
+			}
+			wParam, _ := Unwrap(a[2]).(*ssa.Parameter)
 			// same r for ex and intv: both fields of the same loop element
-			call := cs.Instr.(*ssa.Call)
+			call := st.Instr.(*ssa.Call)
 			orOK := false
 			if refs := call.Referrers(); refs != nil {
 				for _, r := range *refs {
 					if mi, ok := r.(*ssa.MakeInterface); ok {
 						_ = mi
 					}
-					if bo, ok := r.(*ssa.Call); ok && FuncNameIs(bo.Call.StaticCallee(), pkgTools+".BitOr") && bo.Call.Args[2] == ssa.Value(ld.Params[2]) {
+					if bo, ok := r.(*ssa.Call); ok && FuncNameIs(bo.Call.StaticCallee(), pkgTools+".BitOr") && Unwrap(st.UpRoot(bo.Call.Args[2])) == ssa.Value(ld.Params[2]) {
 						orOK = true
 					}
 				}
 			}
-			if !orOK {
+			if !orOK && wParam != nil {
 				// through MakeInterface
-				orOK = usedByBitOr(call, ld.Params[2])
+				orOK = usedByBitOr(call, wParam)
 			}
 			c.Oblige("C16.load", key+"/shift-and-or", c.Prog.Pos(cs.Pos()), shiftOK && orOK, "a piece is not shifted by (piece.Begin() - addr) bytes and OR-ed into the result at width w")
 		}
@@ -964,7 +1073,7 @@ func checkC14(c *Ctx) {
 	c.Rule("C14.cut", "ghost intervals (E8): every cutExpr put into the tree by Sparse.Store covers exactly the address interval it is stored under; in Sparse.Load the piece taken from an overlapping interval o covers exactly [max(addr,o.Low), min(end,o.High)), is shifted by (piece.low - addr) bytes and OR-ed at width w; cutBegin(L)/cutEnd(L) keep the last/first L bytes")
 	c.Rule("C14.miss", "Sparse.Missing emits a gap interval.New(a, b) only under a comparison establishing a < b (or a != b for consecutive sorted intervals): before the first overlap, between overlaps, after the last one; with no overlap the whole range is missing")
 	c.Rule("C14.own", "sparse memory never writes through a byte slice it was handed")
-	c.Rule("C14.whole", "Sparse.Load fails unless wholeInterval(addr, end, overlaps) holds; wholeInterval demands first.Low <= begin, contiguity and last.High >= end")
+	c.Rule("C14.whole", "Sparse.Load fails unless wholeInterval(addr, end, overlaps) holds; wholeInterval, walked concretely on 16 interval lists, is true exactly for a non-empty contiguous list that starts at or before begin and ends at or after end")
 	ownRule(c, "C14.own", func(fn *ssa.Function) bool {
 		if PkgPathOf(fn) != ModulePath+"/"+pkgMemory {
 			return false
@@ -1035,38 +1144,149 @@ func checkC14(c *Ctx) {
 		c.Oblige("C14.whole", ShortName(ld), c.Prog.FuncPos(ld), ok, "a read can succeed without wholeInterval(addr, addr+w, overlaps) having been established")
 	}
 	if wi := anchor(c, pkgMemory+".wholeInterval"); wi != nil {
-		// every `return true` is guarded by: len != 0, first.Low <= begin, lastEnd >= end; contiguity check in the loop returns false on o.Low != lastEnd
-		first, last, contig := false, false, false
-		for _, b := range wi.Blocks {
-			ret, isRet := b.Instrs[len(b.Instrs)-1].(*ssa.Return)
-			if !isRet {
-				continue
-			}
-			if matches(ret.Results[0], BoolPat(true)) {
-				for _, g := range GuardsOf(b) {
-					bo, ok := g.Cond.(*ssa.BinOp)
-					if !ok {
-						continue
-					}
-					if n, _, isF := FieldNameOfLoad(bo.X); isF && n == "Low" && bo.Y == ssa.Value(wi.Params[0]) && ((bo.Op == token.GTR && !g.Outcome) || (bo.Op == token.LEQ && g.Outcome)) {
-						first = true
-					}
-					if bo.Y == ssa.Value(wi.Params[1]) && ((bo.Op == token.LSS && !g.Outcome) || (bo.Op == token.GEQ && g.Outcome)) {
-						last = true
-					}
+		// wholeInterval(begin, end, ints), walked concretely on lists of up to
+		// three intervals: true exactly when the list is non-empty, starts at or
+		// before begin, is contiguous, and ends at or after end
+		type iv struct{ lo, hi int64 }
+		const begin, end = 10, 20
+		lists := [][]iv{
+			{}, {{10, 20}}, {{8, 25}}, {{11, 20}}, {{10, 19}}, {{20, 30}}, {{0, 10}},
+			{{10, 15}, {15, 20}}, {{10, 15}, {16, 20}}, {{10, 14}, {15, 20}}, {{11, 15}, {15, 20}}, {{10, 15}, {15, 19}},
+			{{5, 12}, {12, 18}, {18, 30}}, {{5, 12}, {12, 18}, {19, 30}}, {{5, 12}, {13, 18}, {18, 30}}, {{10, 12}, {12, 18}, {18, 19}},
+		}
+		ints := ssa.Value(wi.Params[2])
+		nw := 0
+		for li, list := range lists {
+			list := list
+			var vl *Valuation
+			// which element of the parameter does an element address denote?
+			elemIdx := func(addr ssa.Value) (int64, bool) {
+				ia, ok := addr.(*ssa.IndexAddr)
+				if !ok {
+					return 0, false
 				}
-			}
-			if matches(ret.Results[0], BoolPat(false)) {
-				for _, g := range GuardsOf(b) {
-					if bo, ok := g.Cond.(*ssa.BinOp); ok && bo.Op == token.NEQ && g.Outcome {
-						if n, _, isF := FieldNameOfLoad(bo.X); (isF && n == "Low") || fieldOfValue(bo.X) == "Low" {
-							contig = true
+				i, ok := vl.EvalInt(ia.Index, nil)
+				if !ok {
+					return 0, false
+				}
+				base := vl.Root(ia.X)
+				if sl, isSl := base.(*ssa.Slice); isSl && vl.Root(sl.X) == ints {
+					lo := int64(0)
+					if sl.Low != nil {
+						lo, ok = vl.EvalInt(sl.Low, nil)
+						if !ok {
+							return 0, false
 						}
 					}
+					return lo + i, true
+				}
+				if base == ints {
+					return i, true
+				}
+				return 0, false
+			}
+			var crash string
+			vl = &Valuation{
+				Enter: SamePackage(wi),
+				Int: func(v ssa.Value) (int64, bool) {
+					switch vl.Root(v) {
+					case ssa.Value(wi.Params[0]):
+						return begin, true
+					case ssa.Value(wi.Params[1]):
+						return end, true
+					}
+					switch x := v.(type) {
+					case *ssa.Call:
+						if bi, ok := x.Call.Value.(*ssa.Builtin); ok && bi.Name() == "len" {
+							r := vl.Root(x.Call.Args[0])
+							if r == ints {
+								return int64(len(list)), true
+							}
+							if sl, isSl := r.(*ssa.Slice); isSl && vl.Root(sl.X) == ints {
+								lo, hi := int64(0), int64(len(list))
+								if sl.Low != nil {
+									lo, _ = vl.EvalInt(sl.Low, nil)
+								}
+								if sl.High != nil {
+									hi, _ = vl.EvalInt(sl.High, nil)
+								}
+								return hi - lo, true
+							}
+						}
+					case *ssa.UnOp:
+						// load of ints[i].Low / .High (directly or from a copied element)
+						if fa, ok := x.X.(*ssa.FieldAddr); ok && FieldOf(fa) != nil {
+							name := FieldOf(fa).Name()
+							var idx int64
+							var found bool
+							if i, ok := elemIdx(fa.X); ok {
+								idx, found = i, true
+							} else if al, isAl := fa.X.(*ssa.Alloc); isAl && al.Referrers() != nil {
+								// the range variable: a local that was assigned *(&ints[i])
+								for _, r := range *al.Referrers() {
+									if st, isSt := r.(*ssa.Store); isSt && st.Addr == ssa.Value(al) {
+										if ld, isLd := vl.Root(st.Val).(*ssa.UnOp); isLd {
+											if i, ok := elemIdx(ld.X); ok {
+												idx, found = i, true
+											}
+										}
+									}
+								}
+							}
+							if found {
+								if idx < 0 || idx >= int64(len(list)) {
+									crash = fmt.Sprintf("element %d of %d intervals is read", idx, len(list))
+									return 0, false
+								}
+								switch name {
+								case "Low":
+									return list[idx].lo, true
+								case "High":
+									return list[idx].hi, true
+								}
+							}
+						}
+					case *ssa.Field:
+						if fv := FieldOf(x); fv != nil {
+							if ld, isLd := vl.Root(x.X).(*ssa.UnOp); isLd {
+								if i, ok := elemIdx(ld.X); ok && i >= 0 && i < int64(len(list)) {
+									switch fv.Name() {
+									case "Low":
+										return list[i].lo, true
+									case "High":
+										return list[i].hi, true
+									}
+								}
+							}
+						}
+					}
+					return 0, false
+				},
+			}
+			res := vl.Walk(wi.Blocks[0], nil)
+			nw++
+			want := len(list) > 0 && list[0].lo <= begin && list[len(list)-1].hi >= end
+			for i := 1; i < len(list); i++ {
+				if list[i].lo != list[i-1].hi {
+					want = false
 				}
 			}
+			key := fmt.Sprintf("%s/list#%d%v", ShortName(wi), li, list)
+			got, known := res.RetBool[0]
+			why := ""
+			switch {
+			case crash != "":
+				why = crash
+			case !res.OK:
+				why = "the function cannot be followed: " + res.Why
+			case !known:
+				why = "the result cannot be evaluated"
+			case got != want:
+				why = fmt.Sprintf("for [%d,%d) the intervals %v are reported as %v, expected %v", begin, end, list, got, want)
+			}
+			c.Oblige("C14.whole", key, c.Prog.FuncPos(wi), why == "", why)
 		}
-		c.Oblige("C14.whole", ShortName(wi), c.Prog.FuncPos(wi), first && last && contig, "wholeInterval does not demand first.Low <= begin, consecutive intervals touching, and the last end >= end")
+		c.RequireCount("C14.whole interval lists walked", nw, 16)
 	}
 }
 
